@@ -142,7 +142,7 @@ def rand_test(rng, ctx):
         return ['false']
     if r < 0.5:
         return ['num', rand_operand(rng, ctx), rng.choice('<>='), rand_operand(rng, ctx), rng.choice(['relax', 'relax', 'space']),
-                rng.choice(['', '', '', 'neg'])]
+                rng.choice(['', '', 'neg'])]
     if r < 0.6:
         return ['odd', rand_operand(rng, ctx), rng.choice(['relax', 'relax', 'space'])]
     if r < 0.7:
@@ -261,6 +261,20 @@ def streams(rng, tier, boost):
         out.append(('scan-soup', dict(kind='scan', which=rand_which(rng, 2), toks=soup, rendered=False)))
     for i in range((500 if tier == 'quick' else 6000) * boost):
         out.append(('programs', dict(kind='prog', prog=rand_prog(rng, rng.choice([1, 2, 2, 3, 3, 4])))))
+    # signs directly in front of register / counter operands (small, systematic): the variable holds v, the test compares
+    # it - written with a minus sign in front, relation turned round - with a literal, in both operand orders; selectors of \ifodd
+    for v in (-3, -2, -1, 0, 1, 2, 3):
+        for var in (2, 0):          # 2: a \newcount register, 0: a LaTeX counter
+            for rel in '<>=':
+                for k in (-2, 0, 1, 3):
+                    for swap in (False, True):
+                        a, b = ['cnt', var], ['lit', k, 'plain', '']
+                        if swap:
+                            a, b = b, a
+                        out.append(('operand-signs', dict(kind='prog', prog=[
+                            ['setc', var, v],
+                            ['cond', ['num', a, rel, b, 'relax', 'neg'], [['word', 1]], [['word', 2]]],
+                            ['cond', ['num', a, rel, b, 'relax', ''], [['word', 3]], [['word', 4]]]])))
     return out
 
 
